@@ -373,4 +373,26 @@ fn main() {
             println!("import deleted: {}  validates: {}  entry probe present: {}", delete_import, wasmparser::validate(&b).is_ok(), txt.contains("i32.const 77"));
         }
     });
+    run("S29 side effects: which index space the record of an added active data segment uses (C23)", || {
+        use wirm::ir::module::side_effects::{InjectType, Injection};
+        use wirm::ir::types::{DataSegment, DataSegmentKind, InitExpr, InitInstr, Tag};
+        // one local memory (the caller's MemoryID 0) and one local global (the caller's GlobalID 0); then an imported memory and an
+        // imported global are added (both locals move to index 1 in the encoded module); then a tagged active segment is added to
+        // "memory 0" at offset "global.get 0".  expected: the record names memory 1 and global.get 1, like the encoded module
+        let build = || {
+            let w: &'static [u8] = Box::leak(wat::parse_str(r#"(module (memory 1) (global i32 (i32.const 8)))"#).unwrap().into_boxed_slice());
+            let mut m = Module::parse(w, false).unwrap();
+            m.add_import_memory("env".into(), "mem".into(), wasmparser::MemoryType { memory64: false, shared: false, initial: 1, maximum: None, page_size_log2: None });
+            m.add_imported_global("env".into(), "g".into(), wirm::DataType::I32, false, false);
+            m.add_data(DataSegment { kind: DataSegmentKind::Active { memory_index: 0, offset_expr: InitExpr::new(vec![InitInstr::Global(wirm::ir::id::GlobalID(0))]) }, data: vec![1, 2, 3], tag: Some(Tag::new(vec![9])) });
+            m
+        };
+        let se = build().pull_side_effects();
+        for r in se.get(&InjectType::Data).map(|v| v.as_slice()).unwrap_or(&[]) {
+            if let Injection::ActiveData { memory_index, offset_expr, .. } = r {
+                println!("record: memory_index {} offset {:?}", memory_index, offset_expr.exprs);
+            }
+        }
+        show("S29", &build().encode());
+    });
 }
